@@ -972,6 +972,21 @@ def attr_assignments(f):
                     for d in ds:
                         if f.dominates(r_, d[0]):
                             assigned.add(l)
+                            # `let target = match name { "size" => &mut size, .. }; *target = v`: choosing the reference under the
+                            # literal is assigning its referent under the literal
+                            rv_ = d[3] if d[2] == 'rv' else {}
+                            hops_ = 0
+                            while rv_.get('k') in ('Ref', 'RawPtr') and rv_.get('mutbl') and hops_ < 3:
+                                pl_ = rv_['place']
+                                if not pl_['proj']:
+                                    assigned.add(pl_['local'])
+                                    break
+                                if [e_['k'] for e_ in pl_['proj']] != ['Deref']:
+                                    break
+                                ds_ = [x_ for x_ in f.defs().get(pl_['local'], []) if x_[2] == 'rv']
+                                if len(ds_) != 1 or len(f.defs().get(pl_['local'], [])) != 1:
+                                    break
+                                rv_, hops_ = ds_[0][3], hops_ + 1
                             # the match result materialised as a bool (`matches!(..)`, an inlined predicate): what is done under
                             # `if <that bool>` is done under the literal test
                             if f.local_ty(l) == 'bool' and 2 <= len(ds) <= 4 and strip(f.expr_of_def(d)) == ('int', 1, 'bool') and \
